@@ -218,11 +218,14 @@ Qed.
 Definition same_width (w : nat) (keys : list key) : Prop := Forall (fun t => length t = w) keys.
 
 Lemma sorted_restrict : forall w keys, same_width w keys -> keys_sorted keys ->
-  StronglySorted (fun a b => length a = length b /\ key_le a b) keys.
+  StronglySorted (fun a b => length a = w /\ length b = w /\ key_le a b) keys.
 Proof.
   intros w keys Hw Hs. induction Hs as [|x l Hs IH Hx]; [constructor|].
   inversion Hw as [|x' l' Hxw Hlw]; subst. constructor; [apply IH; exact Hlw|].
-  rewrite Forall_forall in *. intros y Hy. split; [rewrite (Hlw y Hy); reflexivity | apply Hx; exact Hy].
+  rewrite Forall_forall in *. intros y Hy. split; [|split].
+  - auto.
+  - apply Hlw. exact Hy.
+  - apply Hx. exact Hy.
 Qed.
 
 (* the start/stop searches cut out exactly the keys with aboveStart and belowStop *)
@@ -231,11 +234,11 @@ Lemma scan_tree_filter : forall w fs keys, same_width w keys -> keys_sorted keys
 Proof.
   intros w fs keys Hw Hs. unfold scan_tree.
   transitivity (filter (fun t => above_start fs t && negb (negb (below_stop fs t))) keys).
-  - apply (slice_filter (fun a b : key => length a = length b /\ key_le a b)).
+  - apply (slice_filter (fun a b : key => length a = w /\ length b = w /\ key_le a b)).
     + exact (sorted_restrict w keys Hw Hs).
-    + intros a b [Hl Hle] H. exact (above_start_monotone fs a b Hl Hle H).
-    + intros a b [Hl Hle] H. destruct (below_stop fs b) eqn:Hb; [|reflexivity].
-      rewrite (below_stop_antitone fs a b Hl Hle Hb) in H. discriminate.
+    + intros a b [Hla [Hlb Hle]] H. apply (above_start_monotone fs a b); [congruence | exact Hle | exact H].
+    + intros a b [Hla [Hlb Hle]] H. destruct (below_stop fs b) eqn:Hb; [|reflexivity].
+      rewrite (below_stop_antitone fs a b ltac:(congruence) Hle Hb) in H. discriminate.
   - apply filter_ext. intros t. rewrite negb_involutive. reflexivity.
 Qed.
 
@@ -273,6 +276,200 @@ Proof.
     + rewrite filter_filter_sub.
       * apply filter_ext. intros t. apply matches_sat. exact Hp.
       * intros t _ Hm. destruct (matches_in_partition _ t Hwf Hm) as [Ha Hb]. rewrite Ha, Hb. reflexivity.
+Qed.
+
+(* ---- the key-range path: IterKeyRange(Tup, IncrementTuple(Tup)) ---- *)
+Definition all_none (l : list cell) : Prop := Forall (fun c => c = None) l.
+Definition nilb (f : field) : bool := is_none (b_val (f_lo f)) && is_none (b_val (f_hi f)).
+Definition hival (f : field) : cell := b_val (f_hi f).
+
+Lemma all_none_repeat : forall n, all_none (repeat None n).
+Proof. induction n; constructor; [reflexivity | assumption]. Qed.
+
+Lemma none_le : forall r t, all_none r -> cmp_key r t <> Gt.
+Proof.
+  induction r as [|c r IH]; intros t H; destruct t as [|y t]; cbn [cmp_key]; try discriminate.
+  inversion H; subst. destruct y; cbn [cmp_cell]; [discriminate | apply IH; assumption].
+Qed.
+
+Lemma none_none : forall r1 r2, all_none r1 -> all_none r2 -> cmp_key r1 r2 = Eq.
+Proof.
+  induction r1 as [|c r1 IH]; intros r2 H1 H2; destruct r2 as [|d r2]; cbn [cmp_key]; try reflexivity.
+  inversion H1; inversion H2; subst. cbn [cmp_cell]. apply IH; assumption.
+Qed.
+
+Lemma key_leb_trans : forall s a b, length s = length a -> length a = length b ->
+  key_leb s a = true -> key_le a b -> key_leb s b = true.
+Proof.
+  unfold key_leb, key_le.
+  induction s as [|x s IH]; intros a b H1 H2 Hsa Hab; destruct a as [|y a]; destruct b as [|z b]; try discriminate; [reflexivity|].
+  cbn [cmp_key] in *. injection H1 as H1. injection H2 as H2.
+  destruct (cmp_cell x y) eqn:Hxy; try discriminate.
+  - apply cmp_cell_eq in Hxy. subst y. destruct (cmp_cell x z); try reflexivity; [apply (IH a b); assumption | congruence].
+  - destruct (cmp_cell y z) eqn:Hyz; try congruence.
+    + apply cmp_cell_eq in Hyz. subst z. rewrite Hxy. reflexivity.
+    + assert (cmp_cell x z = Lt) by (revert Hxy Hyz; clear; cc). rewrite H. reflexivity.
+Qed.
+
+Lemma eq_prefix_len_le : forall fs m, eq_prefix_len fs = Some m -> (m <= length fs)%nat.
+Proof.
+  induction fs as [|f fs IH]; intros m H; cbn [eq_prefix_len] in H.
+  - injection H as <-. cbn. lia.
+  - destruct (b_val (f_lo f)).
+    + destruct (f_eq f); [|discriminate]. destruct (eq_prefix_len fs) as [m'|]; [|discriminate].
+      injection H as <-. specialize (IH m' eq_refl). cbn [length]. lia.
+    + destruct (is_none (b_val (f_hi f))); [|discriminate]. injection H as <-. lia.
+Qed.
+
+Lemma kr_char :
+  forall fs m, eq_prefix_len fs = Some (S m) -> Forall wf_field fs ->
+    forallb nilb (skipn (S m) fs) = true ->
+    forall t e1 e2 v, all_none e1 -> all_none e2 -> (S m <= length t)%nat ->
+      nth m (map hival fs) None = Some v ->
+      cmp_key (map hival fs ++ e1) (firstn m (map hival fs) ++ Some (incr32 v) :: e2) = Lt ->
+      key_leb (map hival fs ++ e1) t && negb (key_leb (firstn m (map hival fs) ++ Some (incr32 v) :: e2) t)
+      = matches (firstn (S m) fs) t.
+Proof.
+  induction fs as [|f fs IH]; intros m Hp Hwf Hnil t e1 e2 v He1 He2 Hlen Hnth Hlt; [discriminate|].
+  cbn [eq_prefix_len] in Hp. inversion Hwf as [|f' fs' Hf Hfs]; subst.
+  destruct (b_val (f_lo f)) as [k|] eqn:Hlo; [|destruct (is_none (b_val (f_hi f))); discriminate].
+  destruct (f_eq f) eqn:He; [|discriminate].
+  destruct (Hf He) as [_ [_ Hv]]. rewrite Hlo in Hv.
+  destruct t as [|x t]; [cbn in Hlen; lia|].
+  destruct (eq_prefix_len fs) as [m'|] eqn:Hp'; [|discriminate]. injection Hp as Hp. subst m'.
+  cbn [map] in *. change (hival f) with (b_val (f_hi f)) in *.
+  destruct m as [|m].
+  - (* the incremented field *)
+    cbn [nth] in Hnth. rewrite Hv in Hnth. injection Hnth as <-.
+    cbn [firstn app skipn] in *. rewrite Hv in *.
+    assert (Hrest : all_none (map hival fs ++ e1)).
+    { unfold all_none. apply Forall_app. split; [|exact He1]. rewrite Forall_forall. intros c Hc.
+      apply in_map_iff in Hc. destruct Hc as [g [<- Hg]]. rewrite forallb_forall in Hnil. specialize (Hnil g Hg).
+      unfold nilb in Hnil. apply andb_prop in Hnil. destruct Hnil as [_ Hn]. unfold hival. destruct (b_val (f_hi g)); [discriminate|reflexivity]. }
+    cbn [matches]. unfold field_match. rewrite He, Hlo.
+    rewrite andb_true_r.
+    unfold key_leb. cbn [cmp_key] in *.
+    pose proof (none_le _ t Hrest) as N1. pose proof (none_le _ t He2) as N2.
+    pose proof (none_none _ _ Hrest He2) as N3. rewrite N3 in Hlt.
+    destruct x as [xv|]; cbn [cmp_cell cmp_is_eq] in *.
+    + destruct (Z.compare_spec k (incr32 k)); try discriminate.
+      assert (Hi : incr32 k = k + 1) by (unfold incr32, max32, min32 in *; zb).
+      rewrite Hi in *. destruct (Z.compare_spec k xv); destruct (Z.compare_spec (k + 1) xv); destruct (Z.compare_spec xv k);
+        try lia; try reflexivity;
+        repeat match goal with |- context [match cmp_key ?a ?b with _ => _ end] => destruct (cmp_key a b) end; try congruence; reflexivity.
+    + reflexivity.
+  - (* an equal field before it *)
+    cbn [nth firstn app skipn] in *. rewrite Hv in *.
+    cbn [matches]. unfold field_match. rewrite He, Hlo.
+    unfold key_leb in *. cbn [cmp_key] in *. rewrite cmp_cell_refl in Hlt.
+    specialize (IH m eq_refl Hfs Hnil t e1 e2 v He1 He2 ltac:(cbn [length] in Hlen; lia) Hnth Hlt).
+    destruct x as [xv|]; cbn [cmp_cell cmp_is_eq] in *.
+    + destruct (Z.compare_spec k xv); destruct (Z.compare_spec xv k); try lia; cbn [andb negb]; try reflexivity.
+      exact IH.
+    + reflexivity.
+Qed.
+
+Lemma matches_firstn : forall k fs t, matches fs t = true -> matches (firstn k fs) t = true.
+Proof.
+  induction k as [|k IH]; intros fs t H; [destruct t; reflexivity|].
+  destruct fs as [|f fs]; [exact H|]. destruct t as [|x t]; [reflexivity|].
+  cbn [firstn matches] in *. apply andb_prop in H. destruct H as [H1 H2]. rewrite H1, (IH fs t H2). reflexivity.
+Qed.
+
+Lemma contig_no_nil : forall fs found, contig_aux found fs = true -> forallb (fun f => negb (nilb f)) fs = true.
+Proof.
+  induction fs as [|f fs IH]; intros found H; [reflexivity|].
+  cbn [contig_aux forallb] in *. apply andb_prop in H. destruct H as [H1 H2]. fold (nilb f) in *.
+  rewrite (IH _ H2), andb_true_r. destruct found; [discriminate|]. cbn [orb] in H1. exact H1.
+Qed.
+
+Lemma nil_and_not_nil : forall fs, forallb nilb fs = true -> forallb (fun f => negb (nilb f)) fs = true -> fs = [].
+Proof.
+  intros [|f fs] H1 H2; [reflexivity|]. cbn [forallb] in *.
+  apply andb_prop in H1. apply andb_prop in H2. destruct H1 as [H1 _]. destruct H2 as [H2 _]. rewrite H1 in H2. discriminate.
+Qed.
+
+Lemma forallb_skipn : forall {A} (p : A -> bool) n l, forallb p l = true -> forallb p (skipn n l) = true.
+Proof.
+  intros A p n; induction n as [|n IH]; intros l H; [exact H|]. destruct l as [|x l]; [reflexivity|].
+  cbn [skipn]. cbn [forallb] in H. apply andb_prop in H. destruct H as [_ H]. apply IH. exact H.
+Qed.
+
+Lemma krl_inv : forall nullable r stop, key_range_lookup nullable r = Some stop ->
+  exists n v, eq_prefix_len (r_fields r) = Some (S n) /\ forallb nilb (skipn (S n) (r_fields r)) = true
+    /\ nth n (r_tup r) None = Some v
+    /\ stop = pad (length (r_tup r)) (firstn n (r_tup r) ++ [Some (incr32 v)])
+    /\ cmp_key (r_tup r) stop = Lt.
+Proof.
+  intros nullable r stop H. unfold key_range_lookup in H.
+  destruct (eq_prefix_len (r_fields r)) as [[|n]|]; try discriminate.
+  destruct (negb (forallb (fun b => b) (skipn (S n) nullable))); [discriminate|].
+  change (fun f => is_none (b_val (f_lo f)) && is_none (b_val (f_hi f))) with nilb in H.
+  destruct (forallb nilb (skipn (S n) (r_fields r))) eqn:Hnil; [|discriminate]. cbn [negb] in H.
+  destruct (nth n (r_tup r) None) as [v|] eqn:Hnth; [|discriminate].
+  destruct (cmp_key (r_tup r) (pad (length (r_tup r)) (firstn n (r_tup r) ++ [Some (incr32 v)]))) eqn:Hc; try discriminate.
+  injection H as <-. exists n, v. repeat split; try assumption; reflexivity.
+Qed.
+
+Theorem ranges_sound_complete :
+  forall w nullable keys rs, (length rs <= w)%nat -> same_width w keys -> keys_sorted keys ->
+    match build_range w rs with
+    | Some r => iter_range nullable keys r = filter (sat rs) keys
+    | None => filter (sat rs) keys = []
+    end.
+Proof.
+  intros w nullable keys rs Hl Hw Hs.
+  pose proof (ranges_sound_complete_tree w nullable keys rs Hl Hw Hs) as Htree.
+  unfold build_range in *. destruct (pruned rs) eqn:Hp; [exact Htree|].
+  set (fs := map mk_field rs) in *.
+  set (r := {| r_fields := fs; r_tup := pad w (map (fun f => b_val (f_hi f)) fs); r_contig := contig_aux false fs; r_skip := true |}) in *.
+  destruct (key_range_lookup nullable r) as [stop|] eqn:Hk; [|apply Htree; reflexivity].
+  clear Htree.
+  assert (Hwf : Forall wf_field fs).
+  { rewrite Forall_forall. intros f Hf. apply in_map_iff in Hf. destruct Hf as [c [Hc _]]. subst f. apply mk_field_wf. }
+  assert (Hlf : length fs = length rs) by apply map_length.
+  change (map (fun f => b_val (f_hi f)) fs) with (map hival fs) in *.
+  set (hv := map hival fs) in *.
+  assert (Hlh : length hv = length fs) by apply map_length.
+  destruct (krl_inv _ _ _ Hk) as [n [v [Hpre [Hnil [Hnth [Hstop Hcmp]]]]]].
+  cbn [r_fields r_tup r] in Hpre, Hnil, Hnth, Hstop, Hcmp.
+  pose proof (eq_prefix_len_le _ _ Hpre) as Hn.
+  assert (Hpadlen : length (pad w hv) = w) by (unfold pad; rewrite app_length, repeat_length; lia).
+  assert (Hfn : firstn n (pad w hv) = firstn n hv).
+  { unfold pad. rewrite firstn_app. replace (n - length hv)%nat with O by lia. cbn [firstn]. apply app_nil_r. }
+  assert (Hnth' : nth n hv None = Some v) by (unfold pad in Hnth; rewrite app_nth1 in Hnth; [exact Hnth | lia]).
+  rewrite Hpadlen, Hfn in Hstop.
+  assert (Hstop' : stop = firstn n hv ++ Some (incr32 v) :: repeat None (w - S n)).
+  { rewrite Hstop. unfold pad. rewrite <- app_assoc. cbn [app]. f_equal. f_equal. f_equal.
+    rewrite app_length, firstn_length. cbn [length]. lia. }
+  clear Hstop. subst stop.
+  assert (Hstoplen : length (firstn n hv ++ Some (incr32 v) :: repeat None (w - S n)) = w).
+  { rewrite app_length, firstn_length. cbn [length]. rewrite repeat_length. lia. }
+  (* the scan *)
+  unfold iter_range. rewrite Hk. cbn [r_fields r_tup r r_contig r_skip negb orb].
+  unfold scan_keyrange.
+  assert (Hscan : slice (first_idx (fun t => key_leb (pad w hv) t) keys)
+                        (first_idx (fun t => key_leb (firstn n hv ++ Some (incr32 v) :: repeat None (w - S n)) t) keys) keys
+                  = filter (matches (firstn (S n) fs)) keys).
+  { transitivity (filter (fun t => key_leb (pad w hv) t
+                                   && negb (key_leb (firstn n hv ++ Some (incr32 v) :: repeat None (w - S n)) t)) keys).
+    - apply (slice_filter (fun a b : key => length a = w /\ length b = w /\ key_le a b)).
+      + exact (sorted_restrict w keys Hw Hs).
+      + intros a b [Hla [Hlb Hle]] H. apply (key_leb_trans (pad w hv) a b); try assumption; congruence.
+      + intros a b [Hla [Hlb Hle]] H.
+        apply (key_leb_trans (firstn n hv ++ Some (incr32 v) :: repeat None (w - S n)) a b); try assumption; congruence.
+    - apply filter_ext_in. intros t Ht. unfold same_width in Hw. rewrite Forall_forall in Hw. specialize (Hw t Ht).
+      unfold pad. unfold pad in Hcmp.
+      apply (kr_char fs n Hpre Hwf Hnil t); try assumption; try apply all_none_repeat; lia. }
+  rewrite Hscan.
+  destruct (contig_aux false fs) eqn:Hc; cbn [negb].
+  - assert (Hsk : skipn (S n) fs = []).
+    { apply nil_and_not_nil; [exact Hnil|]. apply forallb_skipn. apply (contig_no_nil fs false Hc). }
+    pose proof (firstn_skipn (S n) fs) as Hfull. rewrite Hsk, app_nil_r in Hfull. rewrite Hfull.
+    apply filter_ext. intros t. apply matches_sat. exact Hp.
+  - rewrite filter_filter_sub.
+    + apply filter_ext. intros t. apply matches_sat. exact Hp.
+    + intros t _ Hm. apply matches_firstn. exact Hm.
 Qed.
 
 (* ------------------------------------------------------------------ *)
@@ -468,6 +665,17 @@ Proof.
       generalize (fst l) (fst r) (fst l'). cc.
 Qed.
 
+Theorem merge_join_inner_spec :
+  forall L R, side_sorted L -> side_sorted R ->
+    Permutation (merge_join (S (length L + length R)) false L R) (nl_join false L R).
+Proof. intros L R HL HR. apply merge_join_spec; auto. Qed.
+
+(* LEFT JOIN, partial: at most one left row with a NULL join key *)
+Theorem merge_join_left_spec_partial :
+  forall L R, side_sorted L -> side_sorted R -> (nulls L <= 1)%nat ->
+    Permutation (merge_join (S (length L + length R)) true L R) (nl_join true L R).
+Proof. intros L R HL HR Hn. apply merge_join_spec; auto. Qed.
+
 (* full statement (fails): the same without the hypothesis on NULL keys.  Two left rows with NULL keys, one right row
    with a NULL key followed by a matching pair: the LEFT merge join loses the right row. *)
 Theorem merge_join_left_refuted :
@@ -510,3 +718,23 @@ Proof.
   intros lo L R HR. unfold lookup_join, nl_join. apply flat_map_ext. intros l.
   rewrite (lookup_filter l R HR). reflexivity.
 Qed.
+
+(* ---- the hypotheses are satisfiable and the interesting paths are taken ---- *)
+Example range_keyrange_path :
+  exists r, build_range 2 [(Below 2, Above 2)] = Some r /\ key_range_lookup [true; true] r <> None /\
+    iter_range [true; true] [[None; Some 2]; [Some 2; Some 3]; [Some 2; Some 4]; [Some 5; Some 1]] r
+    = [[Some 2; Some 3]; [Some 2; Some 4]].
+Proof. eexists. split; [reflexivity|]. split; vm_compute; [discriminate | reflexivity]. Qed.
+
+Example range_noncontiguous_filtered :
+  exists r, build_range 3 [(Above 1, AboveAll); (BelowNull, AboveNull)] = Some r /\ r_contig r = false /\
+    iter_range [true; true; true] [[Some 1; None; Some 1]; [Some 2; None; Some 2]; [Some 2; Some 0; Some 3]; [Some 3; None; Some 4]] r
+    = [[Some 2; None; Some 2]; [Some 3; None; Some 4]].
+Proof. eexists. split; [reflexivity|]. split; vm_compute; reflexivity. Qed.
+
+Example merge_join_duplicates :
+  merge_join 9 true [(None, [Some 1]); (Some 1, [Some 2]); (Some 1, [Some 3]); (Some 2, [Some 4])]
+                    [(None, [Some 7]); (None, [Some 8]); (Some 1, [Some 5]); (Some 1, [Some 6])]
+  = [([Some 1], None); ([Some 2], Some [Some 6]); ([Some 2], Some [Some 5]); ([Some 3], Some [Some 6]); ([Some 3], Some [Some 5]);
+     ([Some 4], None)].
+Proof. vm_compute. reflexivity. Qed.
